@@ -22,16 +22,16 @@ REGISTRY.update({
     "C01": {
         "level": "Every generated pair of diagrams is judged against the definition itself (minimum over all partial matchings, brute force, <= 5 points "
                  "per diagram), an independent reference algorithm (threshold search + one-sided scipy matchings, self-checked against the brute force) up "
-                 "to 30 points, and one complete finite slice (all 23409 ordered pairs of <= 2-point multisets on a 16-point lattice). Generators are aimed "
-                 "at ties, duplicates, diagonal points, every empty form and 13 decimal scales; each of the 16 shard processes runs under its own "
+                 "to 30 points, and complete finite slices (all 23409 ordered pairs of <= 2-point multisets on a 16-point lattice, all 4 x 8281 pairs of <= 1-point diagrams on decimal lattices; in the thorough tier all 48400 pairs of <= 3-point multisets on a 9-point lattice). Generators are aimed "
+                 "at exact ties, one-ulp and 1e-4..1e-12 near-ties, nearly identical diagrams, duplicates, diagonal points, every empty form, float64 / nested-list / narrowest-integer input and 15 decimal scales (1e-12..1e9); each of the 16 shard processes runs under its own "
                  "PYTHONHASHSEED and one clause feeds identical cases to all 16. Exploration is the right level: optimality over all inputs has no finite "
                  "certificate, but on each explored input the verdict is exact.",
         "technique": "property-based testing (Hypothesis) against brute-force definition + differential reference; exhaustive enumeration of a small lattice slice",
         "note": _NOTE + "Hash seeds 0..15 only. A defect that needs > 30 points is only reachable through C07's differential clause.",
     },
     "C02": {
-        "level": "Same design as C01 with Euclidean / (d-b)/sqrt2 costs: brute-force minimum over all partial matchings (<= 5 points), independent assignment reference (own Kuhn-Munkres on the reduced-gain matrix) up to "
-                 "25 points self-checked against the brute force, exhaustive 23409-pair lattice slice, infinite-death handling with warning attribution.",
+        "level": "Same design as C01 with Euclidean / (d-b)/sqrt2 costs: brute-force minimum over all partial matchings (<= 5 points, 6 in the thorough tier), independent assignment reference (own Kuhn-Munkres on the reduced-gain matrix) up to "
+                 "40 points self-checked against the brute force, exhaustive 23409-pair lattice slice, infinite-death handling with warning attribution.",
         "technique": "property-based testing (Hypothesis) against brute-force definition + independent-assignment differential reference; exhaustive enumeration of a small lattice slice",
         "note": _NOTE + "Comparison tolerance 1e-9 * sum |coordinates|.",
     },
@@ -145,10 +145,10 @@ REGISTRY.update({
 
 REGISTRY.update({
     "C05": {
-        "level": "Generated pairs of connected graphs (1..8 vertices, all labelings, generated RNG seed and sampling-size parameter) are judged against the "
+        "level": "Generated pairs of connected graphs (1..12 vertices incl. extremal trees and locally edited copies, all labelings, generated RNG seed and sampling-size parameter) are judged against the "
                  "exact mGH distance computed by branch and bound over all maps in both directions on independently computed shortest-path metrics; one "
                  "complete slice (all 44x44 pairs of connected labelled graphs on <= 4 vertices x 3 seeds, oracle cross-checked by brute force); validity "
-                 "predicates at 9..14 vertices; isomorphic pairs must get lower bound 0.",
+                 "predicates at 13..18 vertices and on 60..260-vertex graphs (random families plus a deterministic slice at the int8 / int16 boundaries of distances and counts); isomorphic pairs must get lower bound 0.",
         "technique": "property-based testing (Hypothesis) against an exact branch-and-bound oracle; exhaustive enumeration of small graphs; validity predicates at size",
         "note": _NOTE + "The NumPy RNG state is an input set by the harness (np.random.seed) immediately before each call.",
     },
@@ -173,7 +173,7 @@ REGISTRY.update({
         "level": "Model-based call histories over a pool of shared inputs: 19 diagram entry points and the two mGH call styles are invoked in generated "
                  "order; every pooled argument is compared byte-for-byte with a snapshot after every call, earlier calls are re-issued after arbitrary "
                  "other calls and must give bit-identical results (mGH under the same NumPy seed), and every call is repeated on equal-valued inputs in "
-                 "each other accepted form (float array / integer array / nested list).",
+                 "each other accepted form (float64 array / int64, int16, uint8 arrays / nested list); float32 arrays and a diagram with infinite deaths are exercised for purity and repeatability.",
         "technique": "model-based / stateful property testing (generated call histories; snapshot invariant after every step; repeat and representation-swap rules)",
         "note": _NOTE + "Coverage of 'every public entry point' is the table in pv/props/c19.py; the slow 3-D plot_landscape is not included.",
     },
